@@ -51,8 +51,8 @@ fn real_opts(prop: &str, rng: &mut Rng) -> GenOpts {
     let mut o = GenOpts::default();
     o.min_steps = 3;
     o.max_steps = 12;
-    o.effects = matches!(prop, "C02" | "C03" | "C09");
-    o.discovers = matches!(prop, "C02" | "C03" | "C09" | "C13");
+    o.effects = matches!(prop, "C02" | "C03" | "C09" | "C15");
+    o.discovers = matches!(prop, "C02" | "C03" | "C09" | "C13" | "C15");
     o.defaults = prop == "C18" && rng.chance(1, 2);
     if prop == "C04" {
         o.wide = true;
@@ -97,7 +97,7 @@ pub fn judge_real(
     w: &World,
     uncertain_before: &BTreeSet<String>,
 ) -> bool {
-    let prop: &str = &ctx.prop;
+    let prop: &str = if ctx.prop == "C15" { "C09" } else { &ctx.prop };
     let mk = || J::obj().with("case", J::i(case)).with("project_at_invocation", proj_before.to_json()).with("history", J::Arr(hist.to_vec())).with("invocation", inv.to_json()).with("trace", out.trace_json());
     rep.count("invocations", 1);
     rep.count("agent_events", out.events.len() as u64);
@@ -306,11 +306,22 @@ pub fn judge_real(
 }
 
 fn general_case(ctx: &Ctx, env: &RealEnv, dir: &std::path::Path, case: u64, seed: u64, rep: &mut Report) {
-    let prop: &str = &ctx.prop;
+    // C15 end to end: C09's histories with real depfiles only
+    let depfiles_only = ctx.prop == "C15";
+    let prop: &str = if depfiles_only { "C09" } else { &ctx.prop };
     let mut rng = Rng::new(seed);
     let opts = real_opts(prop, &mut rng);
     let proj = gen_project(&mut rng, &opts);
     let mut w = new_world(env, dir, proj, &mut rng);
+    if depfiles_only {
+        for s in w.proj.steps.iter_mut() {
+            if s.msvc {
+                s.msvc = false;
+                s.depfile = Some(format!("{}.d", s.outs[0]));
+            }
+        }
+        w.write_manifest();
+    }
     if prop == "C17" {
         let mut p = w.proj.clone();
         let gens = super::hist::make_generations(&mut p, &mut rng);
